@@ -424,6 +424,7 @@ impl C05 {
     pub fn own_generate(&self, seed: u64, run: u64, _tier: Tier, _avoid: &BTreeSet<String>) -> MacCase {
         let mut r = Rng::new(run_seed(seed, "C05", run));
         let mut cfg = gen_cfg(&mut r, &CfgProfile { frontends: ALL_FRONTENDS, otaa_pct: 0, boundary_counters_pct: 75, join_bias_pct: 0 });
+        maybe_phy(&mut r, &mut cfg, 1, 10);
         if r.chance(3, 4) {
             cfg.fcnt_up0 = *r.pick(&[0u32, 5, 0xFFFF, 70000]);
         }
